@@ -293,7 +293,11 @@ fn check_program(p: &synth::Prog, tt: &BTreeMap<&'static str, Target>, all_targe
         };
         out.roots += 1;
         let sub = tree.subtree(r);
-        let exp_idx: Vec<usize> = sub.clone().filter(|&i| tree.is_real(i)).collect();
+        // nodes of the three statement kinds without a target of their own are in no result
+        let exp_idx: Vec<usize> = sub.clone().filter(|&i| tree.is_real(i) && !matches!(tree.nodes[i].kind, "Assembly" | "Continue" | "Break")).collect();
+        if let Some(&i) = exp_idx.iter().find(|&&i| !tt.contains_key(tree.nodes[i].kind)) {
+            out.conform = Err(format!("node kind {} has no entry in the target table", tree.nodes[i].kind));
+        }
         let expected: Vec<Node> = exp_idx.iter().map(|&i| to_node(&tree.nodes[i].pt).unwrap()).collect();
         // (1) full target set from every root
         let got = match util::guarded(|| walk_node_for_targets(all_targets, root.clone())) {
@@ -460,12 +464,18 @@ pub fn run(tier: Tier) -> i32 {
     let mut run = Run::new("C01", if tier == Tier::Quick { "quick" } else { "thorough" });
     let tt_vec = target_table();
     let mut tt: BTreeMap<&'static str, Target> = BTreeMap::new();
+    // `Target::None` is the placeholder of statements that have no kind of their own (assembly, continue, break): it is
+    // not a kind one searches for, so it is in no target set and those nodes are expected in no result
     for (k, t) in &tt_vec {
-        tt.insert(k, *t);
+        if *t != Target::None {
+            tt.insert(k, *t);
+        }
     }
     let mut all_targets: HashSet<Target> = HashSet::new();
     for (_, t) in &tt_vec {
-        all_targets.insert(*t);
+        if *t != Target::None {
+            all_targets.insert(*t);
+        }
     }
     let sets = detector_sets();
     let mut roots = 0u64;
